@@ -27,6 +27,8 @@ def scenarios(tier, seed):
                 if n >= 4 and simruns.supports_R0(sim) and s % 2 == 0:
                     ik["initial_recovereds"] = [2]
                 tmin = (0 if s % 2 else 2) if gi % 3 else (-3 if disc else -2.5)     # also negative start times (then 0 is an ordinary query time)
+                if gi % 3 == 1 and s % 2 == 1:
+                    tmin = 0.18          # a start time that is not exactly representable: tmin+1+1+... and tmin+k differ in the last bit
                 if disc:
                     tmax = None if kind == "SIR" else tmin + 4
                 else:
@@ -129,23 +131,33 @@ def _record(i):
             obj = simruns.call_sim(EoN, sim, G, sc, True)
         nodes = sorted(G.nodes())
         hist = {u: ([float(t) for t in obj.node_history(u)[0]], list(obj.node_history(u)[1])) for u in nodes}
-        summ = obj.summary()
-        acc_t = [float(x) for x in obj.t()]
-        if "generic" in sc:
-            acc = {x: summ[1][x] for x in sts}
-            for nm_, f_ in (("S", obj.S), ("I", obj.I), ("R", obj.R)):
-                if nm_ in sts:
-                    acc[nm_] = f_()
-        else:
-            acc = {"S": obj.S(), "I": obj.I()}
-            if kind == "SIR":
-                acc["R"] = obj.R()
+        def read_accessors():
+            summ_ = obj.summary()
+            acc_t_ = [float(x) for x in obj.t()]
+            if "generic" in sc:
+                acc_ = {x: summ_[1][x] for x in sts}
+                for nm_, f_ in (("S", obj.S), ("I", obj.I), ("R", obj.R)):
+                    if nm_ in sts:
+                        acc_[nm_] = f_()
+            else:
+                acc_ = {"S": obj.S(), "I": obj.I()}
+                if kind == "SIR":
+                    acc_["R"] = obj.R()
+            return summ_, acc_t_, acc_
         rng = pyrandom.Random(sc["seed"])
         sub = sorted(rng.sample(nodes, max(1, len(nodes) // 2)))
         # "any node subset": a list, a set, a tuple, a one-shot iterator or a generator
         style = sc["seed"] % 5
         arg = [list(sub), set(sub), tuple(sub), iter(list(sub)), (x for x in list(sub))][style]
-        ssub = obj.summary(nodelist=arg)
+        # the whole-population accessors are read before the subset summary in half of the scenarios, after it (and
+        # after one more whole summary) in the other half: what they answer must not depend on what was asked before
+        if (i // 5) % 2 == 0:
+            summ, acc_t, acc = read_accessors()
+            ssub = obj.summary(nodelist=arg)
+        else:
+            obj.summary()
+            ssub = obj.summary(nodelist=arg)
+            summ, acc_t, acc = read_accessors()
         # query times: every event time, midpoints, tmin, beyond the end
         import math
         if any(math.isinf(t) for u in nodes for t in hist[u][0]) or any(math.isinf(t) for t in arrs[0]):
